@@ -149,6 +149,13 @@ func vpC14RunTol(t *rapid.T, st *vp.Stats, lateConnects, tolerateAhead bool) {
 		if rapid.Bool().Draw(t, "hasRoute") {
 			s.nodes[i].mgr.AddLocalRoute(nw, 0)
 		}
+		// now and then an origin with more routes than fit one advertisement
+		if rapid.IntRange(0, 9).Draw(t, "bulk") == 0 {
+			for k, cnt := 0, rapid.IntRange(256, 300).Draw(t, "bulkRoutes"); k < cnt; k++ {
+				_, bn, _ := net.ParseCIDR(fmt.Sprintf("172.%d.%d.0/24", 16+k/256, k%256))
+				s.nodes[i].mgr.AddLocalRoute(bn, 0)
+			}
+		}
 		// agents that have been up for different times: counters ahead by a generated amount
 		for k, adv := 0, rapid.IntRange(0, 50).Draw(t, "uptime"); k < adv; k++ {
 			s.nodes[i].mgr.IncrementSequence()
